@@ -618,11 +618,40 @@ func runSeq(p *core.Program, r *core.Report, queue bool) {
 		lc := listCalls(lPeek)
 		okP := len(lc) == 1 && len(lc[peekName]) == 1 && peekPrim != nil
 		byValue, _ := dlistByValue(c)
+		// the queue's removal end is the head node itself: reading its Value directly
+		// (l.list.Value) is what First() does
+		var direct *ssa.UnOp
+		if queue && byValue && len(lc) == 0 {
+			for _, in := range path.Instrs(lPeek) {
+				if ld, ok := in.(*ssa.UnOp); ok && ld.Op == token.MUL {
+					if fa, ok := ld.X.(*ssa.FieldAddr); ok && fieldName(fa.X.Type(), fa.Field) == "Value" {
+						base := fa.X
+						for {
+							if f2, ok := base.(*ssa.FieldAddr); ok {
+								base = f2.X
+								continue
+							}
+							break
+						}
+						if isLoadOfField(base, ln, "list") {
+							direct = ld
+						}
+					}
+				}
+			}
+			okP = direct != nil
+		}
 		if okP {
-			call := lc[peekName][0]
+			var call ssa.Instruction
+			var callVal ssa.Value
+			if direct != nil {
+				call, callVal = direct, direct
+			} else {
+				call, callVal = lc[peekName][0], lc[peekName][0].(ssa.Value)
+			}
 			nCall := 0
 			for _, alt := range returnAlternatives(lPeek, 0) {
-				if alt.val == call.(ssa.Value) {
+				if alt.val == callVal {
 					nCall++
 					continue
 				}
